@@ -155,7 +155,7 @@ package tags
 //@ loop 1 invariant pairs: forall(j, 0, _i, len(array[j]) == 2 && fresh(array[j]) && s_base(array[j]) < alloc)
 //@ loop 1 invariant firsts: forall(j, 0, _i, array[j][0] == rv_val(ks[j]))
 //@ loop 1 invariant seconds: forall(j, 0, _i, array[j][1] == pl_mget(value, rv_val(ks[j])))
-//@ loop 1 invariant keys: sameold("S$RV") && forall(j, 0, len(ks), rv_valid(ks[j]) && pl_mhas(value, rv_val(ks[j])) && (rv_iface(ks[j]) || tassignable(typeof(rv_val(ks[j])), tkey(typeof(value)))))
+//@ loop 1 invariant keys: sameold("S$RV") && forall(j, 0, len(ks), rv_valid(ks[j]) && pl_mhas(value, rv_val(ks[j])) && (rv_iface(ks[j]) || (rv_val(ks[j]) != nil && tassignable(typeof(rv_val(ks[j])), tkey(typeof(value))))))
 
 //@ func tags.loopTagCompiler$1
 //@ nocapture
